@@ -185,6 +185,50 @@ func (x *Exec) vcIntrinsic(fr *Frame, name string, args []Value, pos token.Pos) 
 			cm.assigns = append(cm.assigns, iv.V)
 		}
 		return nil
+	case "GhostLog":
+		// vc.GhostLog(name, bytes): appends a snapshot of bytes to the ghost log (used by trusted contracts)
+		if cm == nil || cm.prove {
+			return nil
+		}
+		name := x.constStr(args[0])
+		snap := x.copySlice(asSlice(args[1]))
+		if x.st.ghost == nil {
+			x.st.ghost = map[string][]Value{}
+		}
+		x.st.ghost[name] = append(append([]Value{}, x.st.ghost[name]...), snap)
+		return nil
+	case "GhostLen":
+		name := x.constStr(args[0])
+		if l := x.st.ghost[name]; len(l) == 1 {
+			if _, ok := l[0].(UnknownV); ok {
+				x.notes["ghost-log-merged:"+name] = true
+				return Scalar{Fresh("ghostlen", BV(64))}
+			}
+		}
+		return Scalar{bv64(int64(len(x.st.ghost[name])))}
+	case "GhostBytes":
+		name := x.constStr(args[0])
+		idx := term(args[1])
+		log := x.st.ghost[name]
+		if !idx.IsConst() {
+			unsup("vc.GhostBytes with symbolic index")
+		}
+		i := int(idx.Val.Int64())
+		if i < 0 {
+			i += len(log)
+		}
+		if i < 0 || i >= len(log) {
+			// no such entry on this path: an empty, distinguished value
+			return SliceV{Off: bv64(0), Len: bv64(0), Cap: bv64(0), Nil: True()}
+		}
+		if _, ok := log[i].(UnknownV); ok {
+			x.notes["ghost-log-merged:"+name] = true
+			n := len(x.inputs)
+			v := x.freshSymSlice("ghostbytes", 8, types.Typ[types.Uint8])
+			x.inputs = x.inputs[:n]
+			return v
+		}
+		return log[i]
 	case "AssignsGlobal":
 		if cm == nil {
 			return nil
@@ -344,6 +388,15 @@ func (x *Exec) arrayToFreshSlice(a Value, name string) SliceV {
 }
 
 func init() {
+	// reflect.DeepEqual on two byte slices: octet-wise equality (nil-ness ignored: both operands are non-nil at the call sites)
+	extModels["reflect.DeepEqual"] = func(x *Exec, fr *Frame, args []Value, pos token.Pos) Value {
+		a, ok1 := args[0].(IfaceV)
+		b, ok2 := args[1].(IfaceV)
+		if !ok1 || !ok2 || a.V == nil || b.V == nil {
+			unsup("reflect.DeepEqual on unsupported operands")
+		}
+		return Scalar{x.bytesEqual(asSlice(a.V), asSlice(b.V))}
+	}
 	// crypto/aes.NewCipher(key): for a 16-octet key returns (block, nil); the block remembers the key.
 	extModels["crypto/aes.NewCipher"] = func(x *Exec, fr *Frame, args []Value, pos token.Pos) Value {
 		k := asSlice(args[0])
